@@ -401,6 +401,13 @@ def _bounded_by_constants(lib, cm, body, op, depth=0, seen=None):
         # n whenever n fits, and a value bounded by small constants always fits (the fallback is never taken)
         if (f.get("trait") in ("std::convert::TryFrom", "std::convert::TryInto", "std::convert::From", "std::convert::Into") or f.get("def", "").startswith("std::result::Result::<T, E>::unwrap") or f.get("def") == "std::result::Result::<T, E>::expect") and tr.origin[2]["args"]:
             return _bounded_by_constants(lib, cm, body, tr.origin[2]["args"][0], depth + 1, seen)
+        # `x.checked_sub(y).unwrap_or(0)`: the payload, or a default that is itself bounded
+        if f.get("def", "").startswith("std::option::Option::<T>::") and f.get("name") in ("unwrap", "expect", "unwrap_or_default", "unwrap_or") and tr.origin[2]["args"]:
+            a = _bounded_by_constants(lib, cm, body, tr.origin[2]["args"][0], depth + 1, seen)
+            if f["name"] == "unwrap_or" and len(tr.origin[2]["args"]) == 2:
+                d_ = _bounded_by_constants(lib, cm, body, tr.origin[2]["args"][1], depth + 1, seen)
+                return (a[0] and d_[0]), a[1] + d_[1]
+            return a
         # `x.checked_sub(y).filter(|&n| n > 0)`: a filter keeps the value or drops it
         if f.get("def") in ("std::option::Option::<T>::filter",) and tr.origin[2]["args"]:
             return _bounded_by_constants(lib, cm, body, tr.origin[2]["args"][0], depth + 1, seen)
@@ -683,6 +690,75 @@ def r05_6(ctx):
     ctx.ob("driver-calls-seen", n >= 1, site(det), f"{n} non-trial call(s) examined in {det.name}")
 
 
+_PULL_METHODS = ("read", "read_vectored", "read_exact", "read_to_end", "read_to_string", "fill_buf", "read_until", "read_line")
+_FILLING_PULLS = ("read_exact", "read_to_end", "read_to_string", "read_until", "read_line")
+
+
+def _generic_source_ty(ty):
+    """The receiver type of an io::Read call is an unknown, possibly blocking source: a type parameter (or a trait
+    object), possibly behind references and std's thin wrappers; not an in-memory reader (Cursor, &[u8], xt's own
+    array buffer)."""
+    t = (ty or "").strip()
+    for _ in range(6):
+        t0 = t
+        for pre in ("&mut ", "&"):
+            if t.startswith(pre):
+                t = t[len(pre):].strip()
+        for wrap in ("std::io::Take<", "std::io::BufReader<", "std::boxed::Box<"):
+            if t.startswith(wrap) and t.endswith(">"):
+                t = t[len(wrap):-1].strip()
+        if t == t0:
+            break
+    return bool(re.match(r"^[A-Z][A-Za-z0-9_]*$", t)) or t.startswith("dyn std::io::Read") or t.startswith("dyn std::io::BufRead")
+
+
+@rule("R05.8", 5, "read adapters are transparent to the read schedule: one call of an adapter's `read` (and of the libyaml read callback) asks the underlying source for data at most once after a successful read (no fill-the-buffer loop, no read_exact/read_to_end on the source), so a consumer never waits for more of the stream than it asked the source for", ["C05"])
+def r05_8(ctx):
+    lib = ctx.lib
+    n_ad = 0
+    seen_reads = 0
+    for b in lib.bodies:
+        is_read_impl = b.id.startswith("<") and b.id.endswith(" as std::io::Read>::read")
+        if not (is_read_impl or b.raw.get("unsafe_fn")):
+            continue
+        if is_read_impl:
+            seen_reads += 1
+        sup = Super(lib, b, depth=3)
+        pulls = []
+        for nn, bx, t in sup.calls():
+            f = fn_of(t) or {}
+            if f.get("trait") in ("std::io::Read", "std::io::BufRead") and f.get("name") in _PULL_METHODS and _generic_source_ty(f.get("self_ty")):
+                pulls.append((nn, f["name"]))
+            elif f.get("def") == "std::io::copy" and _generic_source_ty((f.get("args") or [""])[0]):
+                pulls.append((nn, "read_to_end"))
+        if not pulls:
+            continue
+        n_ad += 1
+        filling = [(nn, m) for nn, m in pulls if m in _FILLING_PULLS]
+        ps = PathSens(sup)
+        for nn, _ in pulls:
+            ps.assume[nn] = (("var", 0), None)
+        again = []
+        if not filling:
+            pn = {nn for nn, _ in pulls}
+            for nn, m in pulls:
+                r = ps.reach_from_node(nn)
+                hit = sorted(pn & set(r))
+                if hit:
+                    again.append((nn, hit[0]))
+        ok = not filling and not again
+        if ok:
+            ctx.ob(f"one-pull-per-call:{b.name if not is_read_impl else b.id.split(' as ')[0].lstrip('<').split('<')[0].rsplit('::', 1)[-1]}", True, site(b),
+                   f"{len(pulls)} source read site(s); after one of them succeeds no further source read is reachable in the same call")
+        elif filling:
+            ctx.ob(f"one-pull-per-call:{b.name if not is_read_impl else b.id.split(' as ')[0].lstrip('<').split('<')[0].rsplit('::', 1)[-1]}", False, sup.site(filling[0][0]),
+                   f"`{filling[0][1]}` on the underlying source inside an adapter's `read`: it keeps reading until the buffer is full or the source ends, so the consumer waits for data it did not need yet (documents stay unwritten while a slow stream trickles in)")
+        else:
+            ctx.ob(f"one-pull-per-call:{b.name if not is_read_impl else b.id.split(' as ')[0].lstrip('<').split('<')[0].rsplit('::', 1)[-1]}", False, sup.site(again[0][0]),
+                   f"after this source read has succeeded another source read (at {sup.site(again[0][1])}) is reachable within the same `read` call: the adapter fills the caller's buffer over several reads, so the consumer waits for more of the stream than one read delivers")
+    ctx.ob("read-adapters", n_ad >= 4, "lib", f"{n_ad} adapter body(ies) with a read of a generic source examined ({seen_reads} io::Read impls in the crate)")
+
+
 # --------------------------------------------------------------------------- C10
 
 
@@ -788,7 +864,7 @@ def r10_5(ctx):
     ctx.ob("content-event-edges", n >= 3, site(ch["loop"]), f"{n} edge(s) of non-yielding events examined")
 
 
-@rule("R10.4", 2, "the TOML trial's size cap applies to unbuffered reader input only: in-memory input of any size is parsed", ["C10"])
+@rule("R10.4", 3, "the TOML trial's size cap applies to unbuffered reader input only, and is not below the 2 MiB the properties are stated for: in-memory input of any size is parsed", ["C10", "C09"])
 def r10_4(ctx):
     lib = ctx.lib
     trial = common.trial_functions(ctx.facts)["toml"]
@@ -835,6 +911,11 @@ def r10_4(ctx):
                 ok = any(ps.edge_dominates(e[0], e[1], e[2], cn) for e in redges)
                 ctx.ob(f"cap-test-under-reader-arm:{n}", ok, sup.site(cn), "the size cap is tested only for reader input" if ok else "the size cap is also applied to in-memory input: a large TOML document (xt's own output) is no longer recognised")
     ctx.ob("cap-tests-found", n >= 1, site(trial), f"{n} comparison(s) with the cap constant {sorted(set(caps))}")
+    # the properties are stated for inputs up to 2 MiB (C09's quantifier; the manual's "documents under 2 MiB"): a
+    # smaller cap makes the TOML trial refuse reader input that it recognises from a slice
+    floor_ = 2 << 20
+    ctx.ob("cap-covers-2MiB", min(caps) >= floor_, site(trial), f"TOML look-ahead cap {min(caps)} >= {floor_}" if min(caps) >= floor_ else
+           f"the TOML trial gives up on unbuffered reader input of {min(caps)} bytes or more, below the 2 MiB ({floor_}) up to which detected and explicit runs must agree: xt's own TOML output between the two sizes is no longer recognised when piped back")
 
 
 @rule("R10.2", 5, "collection-marker tables agree: MessagePack trial accepts exactly rmp's array/map markers; YAML trial accepts exactly sequence/mapping roots", ["C10"])
@@ -891,6 +972,9 @@ def r10_2(ctx):
                 continue
             for l, v in st.items():
                 if isinstance(l, int) and mp.local_ty(l) == "u8" and v is not None and v != ((0, 255),):
+                    sets.add(v)
+                elif isinstance(l, tuple) and getattr(iv, "_key_ty", {}).get(l) == "u8" and v is not None and v != ((0, 255),):
+                    # the byte tested in place as an Option's payload: `matches!(first, Some(0x80..=0x9f | ..))`
                     sets.add(v)
         ok_b = sets == {RMP_COLLECTION_BYTES}
         shown = [" ∪ ".join(f"[{lo:#x}, {hi:#x}]" for lo, hi in v) for v in sorted(sets)]
